@@ -432,29 +432,8 @@ def run(ctx):
               if isinstance(n, (ast.Assign, ast.AugAssign)) and any(self_attr(t) == "_fixed_params" or (isinstance(t, ast.Subscript) and self_attr(t.value) == "_fixed_params")
                                                                    for t in (n.targets if isinstance(n, ast.Assign) else [n.target]))]
     ctx.check(not others, "R04.5", init.short, "fixed-params-immutable", message=f"_fixed_params modified in {others}", how="no writers outside __init__")
-    # _is_fixed_param: True whenever the name is fixed
-    f = tcls.methods.get("_is_fixed_param")
-    ctx.require(f is not None, "R04.5: _is_fixed_param vanished")
-    g = CFG(f.node, name=f.qualname)
-
-    def atom_in_fixed(e):
-        a = cmp_atom(e)
-        if a and a[0] == "name" and a[2] == "self._fixed_params":
-            return True if a[1] is ast.In else (False if a[1] is ast.NotIn else None)
-        return None
-    acc_in = []
-    for t in g.stmt_nodes():
-        if t.kind == "test":
-            pol = edges_where(t.expr, atom_in_fixed)
-            for k, m in t.succ:
-                if pol.get(k) is True:
-                    acc_in.append((t, k, m))
-    rets = [n for n in g.stmt_nodes() if n.kind == "stmt" and isinstance(n.ast, ast.Return)]
-    okT = all((isinstance(n.ast.value, ast.Constant) and n.ast.value.value is True) == g.dominated_by(n, [], acc_in) for n in rets) and bool(acc_in)
-    ctx.check(okT, "R04.5", f.short, "fixed-iff-name-in-fixed-params",
-              message="_is_fixed_param does not return True exactly when the name is among the fixed parameters (e.g. an out-of-range "
-                      "enqueued value is silently replaced by the sampler)",
-              how="`return True` <=> dominated by `name in self._fixed_params`")
+    from rules._suggest import fixed_iff_rule
+    fixed_iff_rule(ctx, "R04.5")
     # enqueue_trial
     scls = p.cls(STUDY)
     f = scls.methods.get("enqueue_trial")
